@@ -134,4 +134,25 @@ theorem ved_wrong_candidate_other_material (m m' b : F) (M K : G) (hM : M ≠ 0)
   · exact hne (sub_eq_zero.mp h1)
   · exact hM h1
 
+/-- a per-byte element transmitted without randomness (`b • M`, e.g. a ciphertext left at the identity for a
+zero byte) is a test for the byte: two byte values give the same element only if they are equal
+(`M ≠ 0`) — oracle `byte-element-without-randomness` -/
+theorem byte_element_without_randomness_separates (b b' : F) (M : G) (hM : M ≠ 0) (h : b • M = b' • M) :
+    b = b' := by
+  have : (b - b') • M = 0 := by rw [sub_smul, h, sub_self]
+  rcases smul_eq_zero.mp this with h1 | h1
+  · exact sub_eq_zero.mp h1
+  · exact absurd h1 hM
+
+/-- with fresh randomness `r • K` (`K ≠ 0` independent of `M`) every byte value is consistent with the element -/
+theorem byte_element_with_randomness_hides (b b' r : F) (M K : G) (k : F) (hk : k ≠ 0) (hK : K = k⁻¹ • M) :
+    ∃ r' : F, b • M + r • K = b' • M + r' • K := by
+  refine ⟨r + (b - b') * k, ?_⟩
+  subst hK
+  simp only [smul_smul]
+  have : ((r + (b - b') * k) * k⁻¹) = r * k⁻¹ + (b - b') := by field_simp
+  rw [this]
+  module
+
+
 end AC.C07
